@@ -108,26 +108,25 @@ package generic
 // ---- C18: which callback runs, with what, and what happens next ------------------------------------------------------------
 // trig(cb, b): the trigger predicate of check (its verified postcondition); cacheOK: the lower-casing caches are coherent
 //@ spec trig(c *Callback, b []byte) bool := (((c.Contains != "" && contains(c.Insensitive ? lower(b) : b, c.Insensitive ? lower(c.Contains) : c.Contains)) || (c.ContainsRe != nil && reMatch(c.ContainsRe, c.Insensitive ? lower(b) : b))) && !(c.NotContains != "" && contains(c.Insensitive ? lower(b) : b, c.Insensitive ? lower(c.NotContains) : c.NotContains)))
-// cbRuns counts executions of user callbacks; recursed records that the operation went on waiting after a callback
+// cbRuns counts executions of user callbacks; waits counts the rounds of waiting for a trigger (handleCallbacks calls)
 //@ ghost cbRuns int
-//@ ghost recursed bool
-// a user callback may do anything to the driver and to the callback list (A-CALLBACK); it is counted
+//@ ghost waits int
+// A-CALLBACK: a user callback may do anything to the driver through its API (so the queue invariant and the coherence of
+// the callbacks' lower-casing caches survive it); it is counted
+//@ spec waitOK(d *Driver, cs []*Callback) bool := RI(d.Channel.Q) && alive(d.Channel.Errs) && cbsOK(cs)
 //@ func dyn:generic.Callback.Callback
 //@   trusted
 //@   modifies everything
-//@   ensures cbRuns == old(cbRuns) + 1
-//@ func (*Driver).handleCallbacks
-//@   noverify
-//@   modifies everything
-//@   ensures recursed
+//@   ensures cbRuns == old(cbRuns) + 1 && waits >= old(waits)
+//@   ensures waitOK(d, callbacks)
 //@ func (*Driver).executeCallback [C18]
-//@   requires 0 <= i && i < len(callbacks) && callbacks[i] != nil && !recursed
-//@   ensures #once-never-runs-twice old(callbacks[i].Once) && old(callbacks[i].triggered) ==> result.1 != nil && isErr(result.1, util.ErrOperationError) && cbRuns == old(cbRuns) && !recursed
+//@   requires 0 <= i && i < len(callbacks) && callbacks[i] != nil && waitOK(d, callbacks)
+//@   ensures #once-never-runs-twice old(callbacks[i].Once) && old(callbacks[i].triggered) ==> result.1 != nil && isErr(result.1, util.ErrOperationError) && cbRuns == old(cbRuns) && waits == old(waits)
 //@   at call dyn#1 assert #callback-runs-with-the-accumulated-output arg1 == old(b) && arg0 == d && cb == old(callbacks)[old(i)] && (cb.Once ==> cb.triggered && !old(callbacks[i].triggered))
 //@   at call handleCallbacks#1 assert #waiting-goes-on-only-when-not-complete !cb.Complete && arg0 === old(callbacks) && arg2 == old(fb)
 //@   at call handleCallbacks#1 assert #reset-output-and-next-timeout arg1 == (cb.ResetOutput ? "" : old(b)) && arg3 == (cb.NextTimeout != 0 ? cb.NextTimeout : old(t))
-//@   ensures #complete-ends-the-operation-with-the-whole-dialogue result.1 == nil && !recursed ==> result.0 == fb
-//@   ensures #a-failing-callback-ends-the-operation-with-its-error !recursed && result.1 != nil ==> len(result.0) == 0
+//@   ensures #complete-ends-the-operation-with-the-whole-dialogue result.1 == nil && waits == old(waits) ==> result.0 == fb
+//@   ensures #a-failing-callback-ends-the-operation-with-its-error waits == old(waits) && result.1 != nil ==> len(result.0) == 0
 
 // the reader goroutine of handleCallbacks: after every successful read all callbacks are scanned in list order over
 // the accumulated output; it reports the FIRST callback whose trigger holds, and goes on reading only while none does
@@ -136,7 +135,9 @@ package generic
 //@ spec firstTrig(cs []*Callback, i int, b []byte) bool := 0 <= i && i < len(cs) && trig(cs[i], b) && (forall j int :: 0 <= j && j < i ==> !trig(cs[j], b))
 //@ chanmode (*Driver).handleCallbacks$1:c count
 //@ func (*Driver).handleCallbacks$1 [C18]
-//@   requires RI(d.Channel.Q) && cbsOK(callbacks) && c != nil && !closed(c) && c != d.Channel.Q.depthChan && c != d.Channel.Errs
+//@   maintains RI(d.Channel.Q)
+//@   maintains cbsOK(callbacks)
+//@   requires c != nil && !closed(c) && c != d.Channel.Q.depthChan && c != d.Channel.Errs
 //@   chaninv c v => v != nil && (v.err == nil ==> firstTrig(callbacks, v.i, v.b) && v.callbacks === callbacks)
 //@   modifies d.Channel.Q.queue, d.Channel.Q.depth, chan(d.Channel.Q.depthChan), chan(d.Channel.Errs), chan(c), b, fb, all(Callback.containsBytes), all(Callback.notContainsBytes), rd, alloc()
 //@   loop 1 invariant RI(d.Channel.Q) && cbsOK(callbacks) && chlen(c) == old(chlen(c)) && !closed(c)
@@ -144,3 +145,15 @@ package generic
 //@   loop 2 invariant rangeindex < len(callbacks) && RI(d.Channel.Q) && cbsOK(callbacks) && chlen(c) == old(chlen(c)) && !closed(c)
 //@   loop 2 invariant #earlier-callbacks-do-not-trigger forall k int :: 0 <= k && k <= rangeindex ==> !trig(callbacks[k], b)
 //@   ensures #at-most-one-result chlen(c) <= old(chlen(c)) + 1 && closed(c)
+
+// one round of waiting: the reader goroutine reports the first callback whose trigger holds; that callback runs with the
+// accumulated output; without a report in time the operation ends with a timeout error
+//@ func (*Driver).handleCallbacks [C18 C05]
+//@   requires waitOK(d, callbacks)
+//@   chaninv c v => v != nil && (v.err == nil ==> firstTrig(callbacks, v.i, v.b) && v.callbacks === callbacks)
+//@   modifies everything
+//@   at return set waits = old(waits) + 1
+//@   ensures #a-round-of-waiting-is-counted waits > old(waits)
+//@   at call WithTimeout#1 assert #the-round-waits-for-the-given-timeout arg1 == timeout
+//@   at call executeCallback#1 assert #the-first-callback-whose-trigger-holds-runs-with-the-accumulated-output firstTrig(arg1, arg0, arg2) && arg1 === callbacks && arg4 == timeout
+//@   at return assert #no-report-in-time-is-a-timeout-error cancelled(ctx) && r == nil ==> result.1 != nil && isErr(result.1, util.ErrTimeoutError) && len(result.0) == 0
